@@ -101,6 +101,90 @@ class Cv:
             k >>= 1
         return R
 
+    def two_torsion_x(self, rng):
+        """the abscissae with x^3 + ax + b = 0 (points of order two), by gcd(x^p - x, f) and
+        random splitting; [] if the group order is odd (input search only)"""
+        p = self.p
+        f = [self.b % p, self.a % p, 0, 1]                       # little-endian coefficients
+
+        def trim(u):
+            while u and u[-1] == 0:
+                u.pop()
+            return u
+
+        def pmod(u, m):
+            u = u[:]
+            dm = len(m) - 1
+            inv = pow(m[-1], -1, p)
+            while len(u) - 1 >= dm and trim(u):
+                if len(u) - 1 < dm:
+                    break
+                k = u[-1] * inv % p
+                sh = len(u) - 1 - dm
+                for i, c in enumerate(m):
+                    u[sh + i] = (u[sh + i] - k * c) % p
+                trim(u)
+            return u
+
+        def pmul(u, w, m):
+            r = [0] * (len(u) + len(w) - 1) if u and w else []
+            for i, x in enumerate(u):
+                for j, y in enumerate(w):
+                    r[i + j] = (r[i + j] + x * y) % p
+            return pmod(trim(r), m)
+
+        def ppow(u, e, m):
+            r = [1]
+            while e:
+                if e & 1:
+                    r = pmul(r, u, m)
+                u = pmul(u, u, m)
+                e >>= 1
+            return r
+
+        def pgcd(u, w):
+            u, w = trim(u[:]), trim(w[:])
+            while w:
+                u, w = w, pmod(u, w)
+            if u:
+                inv = pow(u[-1], -1, p)
+                u = [c * inv % p for c in u]
+            return u
+
+        def psub(u, w):
+            n = max(len(u), len(w))
+            return trim([((u[i] if i < len(u) else 0) - (w[i] if i < len(w) else 0)) % p for i in range(n)])
+        g = pgcd(f, psub(ppow([0, 1], p, f), [0, 1]))
+        roots, work = [], [g]
+        tries = 0
+        while work and tries < 200:
+            h = work.pop()
+            if len(h) <= 1:
+                continue
+            if len(h) == 2:
+                roots.append((-h[0]) % p)
+                continue
+            tries += 1
+            r = rng.randrange(p)
+            t = psub(ppow([r, 1], (p - 1) // 2, h), [1])
+            d = pgcd(h, t)
+            if 1 < len(d) < len(h):
+                work.append(d)
+                q = h[:]
+                # exact division h / d
+                quo = [0] * (len(h) - len(d) + 1)
+                q = h[:]
+                invd = pow(d[-1], -1, p)
+                for i in range(len(quo) - 1, -1, -1):
+                    k = q[i + len(d) - 1] * invd % p
+                    quo[i] = k
+                    for j, c in enumerate(d):
+                        q[i + j] = (q[i + j] - k * c) % p
+                work.append(trim(quo))
+            else:
+                work.append(h)
+        return sorted(x for x in roots if self.rhs(x) == 0)
+
     def next_on(self, x):
         while self.lift(x % self.p) is None:
             x += 1
@@ -413,6 +497,15 @@ def gen_ep(cv, rng, tier):
     rd(b"\4" + be(0, fb) + be(0, fb))
     rd(b"\2" + be(0, fb))
     rd(b"\3" + be(0, fb))
+    for x0 in cv.two_torsion_x(rng):                               # points of order two (x, 0): only one sign bit is canonical
+        xb = be(x0, fb)
+        rd(b"\2" + xb)
+        rd(b"\3" + xb)
+        rd(b"\4" + xb + be(0, fb))
+        cases.append("ep_upk %s %s 0" % (c, hx(x0)))
+        cases.append("ep_upk %s %s 1" % (c, hx(x0)))
+        for pack in (0, 1):
+            cases.append("ep_write_bin %s %s %d %d" % (c, pt_tok((x0, 0)), pack, 1 + fb * (1 if pack else 2)))
     return cases
 
 
@@ -437,9 +530,8 @@ def gen_tiny_strings(cv, rng, tier):
         strs += [bytes([rng.randrange(256), rng.randrange(256), rng.randrange(256)]) for _ in range(1500)]
     else:
         strs += [bytes([t, x]) for t in range(256) for x in range(256)]              # all strings of length <= 2
-        strs += [bytes([4, x, y]) for x in range(256) for y in range(256)]           # all uncompressed candidates
-        strs += [bytes([t, x, y]) for t in (0, 2, 3) for x in range(0, 256, 5) for y in range(0, 256, 3)]
-        strs += [bytes([rng.randrange(256), rng.randrange(256), rng.randrange(256)]) for _ in range(60000)]
+        strs += [bytes([t, x, y]) for t in range(8) for x in range(256) for y in range(256)]   # all with first byte 0..7
+        strs += [bytes([rng.randrange(8, 256), rng.randrange(256), rng.randrange(256)]) for _ in range(60000)]
     for s in strs:
         cases.append("ep_read_bin %s %s" % (c, hb(s)))
     for x in two:
@@ -675,4 +767,71 @@ def gen_fp2_packed(cv, rng, tier):
             continue
         for byte in (0, 1):
             cases.append("fp2_read_bin %s %s" % (c, hb(be(a0, fb) + bytes([byte]))))
+    return cases
+
+
+# ------------------------------------------------------------------ Edwards points
+def gen_ed(ed, pts, rng, tier):
+    """ed: dict(p, fb, a, d, n); pts: affine points (x, y) harvested from the library's uncompressed
+    writer (inputs only).  Wire format: 0 | 2+s y | 4 y x."""
+    quick = tier == "quick"
+    p, fb, n = ed["p"], ed["fb"], ed["n"]
+    c = "ed"
+    cases = []
+    top = (1 << (8 * fb)) - 1
+
+    def rd(bs):
+        cases.append("ed_read_bin %s %s" % (c, hb(bs)))
+    toks = ["inf", "m1", "m2", "m3", "m%x" % (n - 1), "d1", "d%x" % rng.randrange(1, n), "0,1", "0,%x" % (p - 1)]
+    toks += ["m%x" % rng.randrange(1, n) for _ in range(3 if quick else 12)]
+    toks += ["%x,%x" % P for P in pts[:3]] + ["%x,%x" % ((p - P[0]) % p, P[1]) for P in pts[:3]]
+    for t in toks:
+        for pack in (0, 1):
+            size = 1 if t in ("inf", "0,1") else 1 + fb * (1 if pack else 2)
+            cases.append("ed_size_bin %s %s %d" % (c, t, pack))
+            for ln in sorted({0, 1, size - 1, size, size + 1}):
+                cases.append("ed_write_bin %s %s %d %d" % (c, t, pack, ln))
+    rd(b"")
+    for (x, y) in pts:
+        xb, yb = be(x, fb), be(y, fb)
+        rd(b"\2" + yb)
+        rd(b"\3" + yb)
+        rd(b"\4" + yb + xb)
+        rd(b"\4" + yb + be((p - x) % p, fb))                        # the opposite point
+        rd(b"\4" + yb + be((x + 1) % p, fb))                        # off the curve
+        rd(b"\4" + xb + yb)                                         # coordinates in the other order
+    (x, y) = pts[len(pts) // 2]
+    xb, yb = be(x, fb), be(y, fb)
+    for ln, body in ((1, b""), (fb + 1, yb), (2 * fb + 1, yb + xb)):
+        for tag in range(256):
+            rd(bytes([tag]) + body)
+    for tag in (0, 2, 3, 4, 6):
+        for ln in range(0, 2 * fb + 4):
+            rd((bytes([tag]) + yb + xb + b"\0\0\0")[:ln])
+    for full in (b"\4" + yb + xb, bytes([2 + (x & 1)]) + yb, bytes([3 - (x & 1)]) + yb):
+        muts = mutations(full)
+        if quick:
+            muts = muts[:6] + rng.sample(muts[6:], 40)
+        for m in muts:
+            rd(m)
+    for bad in (p, p + 1, top):
+        if bad > top:
+            continue
+        bb = be(bad, fb)
+        rd(b"\2" + bb)
+        rd(b"\3" + bb)
+        rd(b"\4" + bb + xb)
+        rd(b"\4" + yb + bb)
+    for _ in range(12 if quick else 60):                             # random ordinates: about half have no point
+        yr = be(rng.randrange(p), fb)
+        rd(b"\2" + yr)
+        rd(b"\3" + yr)
+        rd(b"\4" + yr + xb)
+    # the neutral element (0, 1) and the point of order two (0, -1): long forms, both sign bits
+    for yy in (1, p - 1, 0):
+        rd(b"\2" + be(yy, fb))
+        rd(b"\3" + be(yy, fb))
+        rd(b"\4" + be(yy, fb) + be(0, fb))
+    rd(b"\0" + b"\4" + yb + xb)
+    rd(b"\4" + yb + xb + b"\0")
     return cases
